@@ -303,6 +303,10 @@ func (rb *Rebalancer) adjustWeights() {
 
 func (rb *Rebalancer) applyWeights() {
 	for _, srv := range rb.servers {
+		// An unchanged weight is not re-applied: every upsert restarts the balancer's rotation.
+		if w, ok := rb.next.ServerWeight(srv.url); ok && w == srv.curWeight {
+			continue
+		}
 		rb.log.Debug("upsert server %v, weight %v", srv.url, srv.curWeight)
 		_ = rb.next.UpsertServer(srv.url, Weight(srv.curWeight))
 	}
